@@ -31,6 +31,7 @@ type fCase struct {
 	Cols   int    `json:"cols"`
 	Colors int    `json:"colors"`
 	Tags   []int  `json:"tags"`
+	Pred   int    `json:"pred"`
 	Enc    []int  `json:"enc"`
 	Expect string `json:"expect"`
 }
@@ -90,6 +91,9 @@ func c05Stream(c *fCase) (*core.Stream, error) {
 		}
 		if uniform && len(c.Tags) > 0 {
 			pred = 10 + c.Tags[0]
+		}
+		if c.Pred >= 10 { // the declared value is a choice of the specification, independent of the row tags
+			pred = c.Pred
 		}
 		parms := core.Dict{"Predictor": core.Int(pred), "Colors": core.Int(c.Colors), "Columns": core.Int(c.Cols)}
 		switch c.Opt {
@@ -231,6 +235,9 @@ func c05Case(i int, raw []byte) Result {
 			seen[t] = true
 		}
 		feat = fmt.Sprintf("png:colors=%d", c.Colors)
+		if c.Pred >= 10 && c.Pred < 15 && !(len(seen) == 1 && seen[c.Pred-10]) {
+			feat += ":declared-other" // /Predictor names another PNG filter than the row tags
+		}
 		for t := 0; t <= 4; t++ {
 			if seen[t] {
 				feat += fmt.Sprintf(":t%d", t)
